@@ -1,8 +1,10 @@
 def classify(case):
     """The signature of a reported lock-order cycle: 'lock-inversion:<class><-><class>...' with the class names sorted
-    (written by the harness from the translator's class names; known inversions are F28 and F29)."""
+    (written by the harness from the translator's class names; known inversions are F28 and F29), or of a write site
+    that breaks the write discipline: 'write-discipline:<kind>:<type or field>:<function>' (none is known)."""
     c = case.get("case") if isinstance(case, dict) else None
-    if isinstance(c, dict) and isinstance(c.get("signature"), str) and c["signature"].startswith("lock-inversion:"):
+    if isinstance(c, dict) and isinstance(c.get("signature"), str) and \
+            (c["signature"].startswith("lock-inversion:") or c["signature"].startswith("write-discipline:")):
         return c["signature"]
     return None
 
@@ -10,16 +12,34 @@ def classify(case):
 SPEC = {
     "title": "The packet engine is free of data races and deadlocks",
     "design_ref": "DESIGN.md section 4, C34",
-    "technique": "translator (go/packages + go/ssa + callgraph/vta over the source of /repo) emitting the lock-class order graph as a Coq "
-                 "file on every run; acyclicity by reflection with a proved-sound checker; Coq theorem that threads respecting an acyclic "
-                 "class order never reach a wait-for cycle",
+    "technique": "translator (go/packages + go/ssa + callgraph/vta over the source of /repo) emitting, on every run, (1) the lock-class order "
+                 "graph and (2) the table of write sites (stores into Relay structs with freshness; writes to map/slice fields of mutex-carrying "
+                 "structs with their must-held lock classes) as Coq files; acyclicity and the write discipline by reflection on the regenerated "
+                 "tables; Coq theorems that threads respecting an acyclic class order never reach a wait-for cycle, that guarded writes of "
+                 "different threads never overlap, and that an object only written before publication is read-only afterwards",
     "level": "partial",
-    "level_text": "DATA RACES ARE NOT COVERED: freedom from data races is a property of the Go memory model over all executions of pointer-"
-                  "manipulating code; there is no executable Gallina model of that and nothing is claimed about it. Covered: DEADLOCK BY LOCK-CLASS "
-                  "ORDER only. On every run a translator re-derives from the source the lock classes of the module (struct type + sync.Mutex / "
-                  "sync.RWMutex field, 21 classes) and every edge 'class b may be acquired while class a is held' (intra-procedural may-held "
-                  "dataflow with deferred unlocks + call-graph closure; 44 edges), and Coq re-checks by reflection that the graph minus the two "
-                  "inversions listed as known findings (F28 HandshakeManager<->HostMap, F29 HostMap<->RemoteList: both are real nestings in the "
+    "level_text": "DATA RACES ARE PARTLY COVERED - exactly the WRITE DISCIPLINE that is a syntactic property of the source: (a) every write (map "
+                  "update, delete/clear, element store, store to the field) to the documented lock-guarded containers HostMap.{Indexes, Relays, "
+                  "RemoteIndexes, Hosts, moreHosts} (HostMap.RWMutex), RelayState.{relays, relayForByAddr, relayForByIdx} (RelayState.RWMutex), "
+                  "HandshakeManager.{vpnIps, indexes} (HandshakeManager.RWMutex), LightHouse.addrMap (LightHouse.RWMutex) and RemoteList.{vpnAddrs, "
+                  "addrs, relays, cache, badRemotes} (RemoteList.RWMutex) holds that lock class IN WRITE MODE on every control-flow path from every "
+                  "caller in the call graph (intra-procedural must-held dataflow, entry sets = intersection over all call sites, go/defer/external "
+                  "callers contribute nothing), or happens while the owning struct is a not-yet-escaped allocation of the same function; (b) a "
+                  "Relay object ('treat the pointed-to Relay struct as immutable', hostmap.go) is never written after publication: every store "
+                  "into a *Relay goes to an allocation of the same function that cannot have escaped yet. The translator lists 130 write sites "
+                  "(15 Relay stores, 70 writes to the 16 documented containers, 45 to other mutex-carrying structs' containers that are listed "
+                  "but not judged); Coq re-checks the hand-written rule on the regenerated table by reflection and on every site reported by the "
+                  "harness; a site that breaks it is reported with file:line, function and must-held set. Machine-checked general theorems: at "
+                  "any instant at which write-mode locks are mutually exclusive and every write in progress holds the guard of its location, two "
+                  "writes to one location are by the same thread; if no write to an object follows its publication, every later access is a read. "
+                  "NOT COVERED (nothing is claimed): READS (whether a reader holds the lock, in read or write mode, is not examined), writes to any other field or "
+                  "variable, the contents of the objects the maps point to (HostInfo, ConnectionState, ...), atomics, channel hand-offs, slices "
+                  "and buffers shared between routines, writes through an alias of a map (map value passed to another function), instance-level "
+                  "(as opposed to class-level) lock identity, and the link between this discipline and the Go memory model. "
+                  "DEADLOCK BY LOCK-CLASS ORDER: on every run a translator re-derives from the source the lock classes of the module (struct type + "
+                  "sync.Mutex / sync.RWMutex field, 21 classes) and every edge 'class b may be acquired while class a is held' (intra-procedural "
+                  "may-held dataflow with deferred unlocks + call-graph closure; 44 edges), and Coq re-checks by reflection that the graph minus the "
+                  "two inversions listed as known findings (F28 HandshakeManager<->HostMap, F29 HostMap<->RemoteList: both are real nestings in the "
                   "code) is acyclic, same-class nesting included. Machine-checked theorems: the acyclicity checker is sound (no path from a class "
                   "back to itself), and in any system of threads in which every acquisition-while-holding follows an edge of an acyclic graph no "
                   "thread is part of a wait-for cycle. A new nesting that closes a cycle fails the reflection and is reported with the classes "
@@ -30,18 +50,30 @@ SPEC = {
                   "not classes; it is assumed to call back only through function values passed directly and through formatting methods of values "
                   "boxed for logging); a lock whose receiver cannot be traced to a field or package variable gets a site-local class; class-level "
                   "order is stricter than instance-level order, so an edge may be spurious (none of the 44 was found to be after refinement) and "
-                  "RLock is treated like Lock (a recursive read lock can deadlock behind a queued writer).",
+                  "RLock is treated like Lock (a recursive read lock can deadlock behind a queued writer). Write discipline: the same translator "
+                  "(go/lockgraph/guards.go) is trusted for the enumeration of write sites (SSA Store / MapUpdate / delete / clear whose address is "
+                  "syntactically a field path of the struct; a write through an alias is not seen), for freshness (an ssa.Alloc of the same function "
+                  "with no escaping use on a path from the allocation to the store) and for the must-held sets (a callee removes every class it may "
+                  "net-release: an unlock not matched by a lock of the same receiver value in the same function); which fields are guarded by "
+                  "which class and which types are immutable is hand-written in coq/model/WriteDiscipline.v from the quoted source comments; the "
+                  "abstract theorems are about an event model, their link to the sites is the stated reading of the table, not a proof about Go.",
     "gens": ["gen_lockorder"],
     "props": ["props/C34.v"],
-    "corr": ["corr/LockOrder_corr.v"],
+    "corr": ["corr/LockOrder_corr.v", "corr/Guards_corr.v"],
     "build_comp": "lockorder",
-    "comps": [{"comp": "lockorder", "n_quick": 1, "n_thorough": 1, "timeout": 1500}],
+    "comps": [{"comp": "lockorder", "n_quick": 1, "n_thorough": 1, "timeout": 1500},
+              {"comp": "guards", "n_quick": 1, "n_thorough": 1, "timeout": 1500}],
     "trusted": ["gen/LockGraph.v is produced by go/lockgraph from /repo's source on every run (translator, not verified)",
+                "gen/WriteSites.v is produced by go/lockgraph/guards.go from the same SSA program and call graph on every run (translator, not "
+                "verified): completeness of the site enumeration for direct field-path writes, freshness flags, must-held sets",
+                "the guard map and the list of immutable types in coq/model/WriteDiscipline.v (hand-written from the source comments)",
                 "the mapping 'every blocking acquisition in the module happens at a Lock/RLock call the translator saw' (sync.Mutex / sync.RWMutex "
                 "only; sync.Cond, channels and other blocking primitives are outside the model)"],
     "assumptions": ["code outside the module does not hold module locks and calls back into the module only through function values passed as "
                     "arguments and formatting methods of logged values",
-                    "no lock is acquired through reflection, unsafe or a mutex copied by value"],
+                    "no lock is acquired through reflection, unsafe or a mutex copied by value",
+                    "write discipline: whole-program view (a module function is entered only from the call sites in the call graph, from `go` / "
+                    "`defer`, or from outside the module with nothing held); guarded containers are not written through aliases, reflection or unsafe"],
     "classify": classify,
     "coqchk": True,
 }
